@@ -232,4 +232,7 @@ def check(ctx) -> Result:
     res.add(not named, "K-analyzer-gate-agnostic", "post_selection_analyzer", psa.site(named[0]) if named else psa.site(), psa.qualname, "qubits are collected for every instruction with two or more qubits",
             "the post-selection analysis treats instructions differently by gate name: a multi-qubit gate left out of the bookkeeping (e.g. swap) still moves the photons a later post-selected gate relies on", construct=src(named[0]) if named else "")
     res.frozen("ps_rules.add(self.modes[q],1)" in tc, "K-post-selection-rules", "convert", conv.site(), conv.qualname, "one photon across the two modes of every post-selected qubit", "returned post-selection rules changed", construct="ps rules")
+    from ..rules import rz_falsy
+    nz = rz_falsy.none_checks(ctx, res, "C12", ())
+    res.floor("Z functions scanned", nz, 3)
     return res
